@@ -60,6 +60,17 @@ func judgeC02(p *rm.Parsed, mq rm.Request, r rm.Router, o rs.Outcome) (string, r
 			first = why
 		}
 	}
+	if o.Panic == "" {
+		// two points no property decides (plain variable vs empty segment, tail wildcard vs zero
+		// remaining segments): an outcome that is right under a lenient reading is accepted
+		for _, lr := range r.Readings()[1:] {
+			for _, e := range p.Analyse(mq, lr).Exps {
+				if matchExp(o, e) == "" {
+					return "", an
+				}
+			}
+		}
+	}
 	return first, an
 }
 
